@@ -25,6 +25,8 @@ that stage function on elements of that partition (= the index of the element in
 element is evaluated once, in order).  impl returns
     ([len(LOG) after each definition step], LOG after the action, canonical result of the action, partitioning)
 and the Gallina model (coq/Model/Lazy.v via coq/Run/C06_run.v) must predict exactly that tuple."""
+import io
+import logging
 import os
 import shutil
 import tempfile
@@ -55,7 +57,10 @@ RULE = ('cases (source, pipeline, action): source = parallelize(xs, n) with len 
         'action incl. reduce with every reducer; drop-all block: the REAL samplers at boundary fractions (0.0, 1e-300, -1.0 '
         'with and without replacement; 1.0 Bernoulli), filter(False), flatMap([]) below instrumented stages for every '
         'single-pass action; histories: 2-3 actions in sequence on ONE dataset object of an uncached lineage (same action '
-        'twice, two members of the stats family, an action after take/first/isEmpty), every per-action log judged; exhausted '
+        'twice, two members of the stats family, an action after take/first/isEmpty), every per-action log judged; '
+        'pair block: keyBy / map-to-pairs, mapValues, flatMapValues, sampleByKey (real per-key samplers, fractions missing '
+        'keys) downstream of counted functions; configuration slice: 60/900 cases per action kind re-run with DEBUG logging '
+        'enabled; API sweep (extra_checks): every public transformation defined downstream of counted functions; exhausted '
         'block: first / isEmpty / take(n) on ONE partition (parallelize default and numSlices=1) and on several whose '
         'pipeline yields nothing or fewer than n; non-trivial = at least one logged user-function call and >= 1 '
         'pipeline stage; distinct by canonical JSON')
@@ -73,9 +78,11 @@ ASSUMPTIONS = [
 TRUSTED = ['py/c06.py wrappers (logging; int/str/tuple/list subclasses as partition tags; None and False are attributed '
            'to the partition of the tagged element seen last)', 'encoding of None, \'\', False, (), [] as codes 100001..100005', 'function library pairs py/c06.py <-> coq/Run/C06_run.v']
 
-MAP, FILTER, FLATMAP, SAMPLE, PERSIST, EAGER, GENSUM, CACHE = range(8)
-KIND_NAMES = ['map', 'filter', 'flatMap', 'sample', 'persist', 'mapPartitions', 'genSum', 'cache']
-ELEMENTWISE = (MAP, FILTER, FLATMAP, SAMPLE)
+MAP, FILTER, FLATMAP, SAMPLE, PERSIST, EAGER, GENSUM, CACHE, KEYBY, MAPVALUES, FLATMAPVALUES, SAMPLEBYKEY = range(12)
+KIND_NAMES = ['map', 'filter', 'flatMap', 'sample', 'persist', 'mapPartitions', 'genSum', 'cache',
+              'keyBy', 'mapValues', 'flatMapValues', 'sampleByKey']
+ELEMENTWISE = (MAP, FILTER, FLATMAP, SAMPLE, KEYBY, MAPVALUES, FLATMAPVALUES, SAMPLEBYKEY)
+PAIR_STAGES = (MAPVALUES, FLATMAPVALUES, SAMPLEBYKEY)
 
 A_COLLECT, A_COUNT, A_SUM, A_REDUCE, A_FOLD, A_AGGREGATE, A_FOREACH, A_COUNTBYVALUE, A_STATS, A_SAVE, \
     A_TAKE, A_FIRST, A_ISEMPTY, A_HISTORY = range(14)
@@ -95,6 +102,20 @@ UNTAGGABLE = (NONE, FALSE)
 
 def sp(c):
     return c > 100000
+
+
+# (key, value) pairs of small ints are written as codes >= 200000 (so they count as "special" for the int functions)
+def pair(k, v):
+    assert -100 <= k < 900 and -100 <= v < 900, (k, v)
+    return 200000 + (k + 100) * 1000 + (v + 100)
+
+
+def ispair(c):
+    return c >= 200000
+
+
+def unpair(c):
+    return (c - 200000) // 1000 - 100, (c - 200000) % 1000 - 100
 
 
 class E(int):
@@ -129,7 +150,12 @@ def obj(c, pid):
         return None
     if c == FALSE:
         return False
-    if c == STR:
+    if ispair(c):
+        k, v = unpair(c)
+        val = E(v, pid)
+        val.key = k          # lets the function of mapValues / flatMapValues (which only sees the value) log the pair
+        o = ETup((k, val))
+    elif c == STR:
         o = EStr('')
     elif c == TUP:
         o = ETup(())
@@ -150,7 +176,7 @@ def enc(x):
     if isinstance(x, str):
         return STR
     if isinstance(x, tuple):
-        return TUP
+        return pair(enc(x[0]), enc(x[1])) if len(x) == 2 else TUP
     if isinstance(x, list):
         return LST
     return int(x)
@@ -167,7 +193,8 @@ FN = [lift(lambda x: x + 1), lift(lambda x: 2 * x), lift(lambda x: -x), lift(lam
       lift(lambda x: FALSE if x % 2 == 0 else x),      # 7
       lambda x: STR,                                   # 8
       lift(lambda x: SPECIALS[x % 5]),                 # 9: every special
-      lift(lambda x: 0 if x % 2 == 1 else x)]          # 10: falsy int
+      lift(lambda x: 0 if x % 2 == 1 else x),          # 10: falsy int
+      lift(lambda x: pair(x % 3, x))]                  # 11: map to (key, value) pairs
 PRED = [lambda x: sp(x) or x % 2 == 0, lambda x: sp(x) or x > 0, lambda x: True, lambda x: False,
         lambda x: sp(x) or x % 5 < 3, sp, lambda x: not sp(x)]
 GFN = [lambda x: [x, x], lambda x: [x] if sp(x) else list(range(x % 4)), lambda x: [], lambda x: [x],
@@ -187,7 +214,32 @@ def lift2(f):
 OP = [lift2(lambda a, b: a + b), lift2(max), lift2(lambda a, b: a - b), lambda a, b: b,
       lambda a, b: b if sp(a) else a,                             # 4: first non-null
       lambda a, b: ((a % 1009) * 3 + b % 1009) % 1009]            # 5: order-sensitive digest of everything seen
-NLIB = {MAP: len(FN), FILTER: len(PRED), FLATMAP: len(GFN), SAMPLE: len(MFN), EAGER: len(HFN)}
+# pair datasets: keyBy(KF), mapValues(VF), flatMapValues(GV), sampleByKey(fractions) with the REAL per-key samplers at
+# fractions where the outcome is certain (1.0 Bernoulli: always; 0.0 or a key without fraction: never)
+KF = [lambda x: x % 2, lambda x: x % 3, lambda x: 0]
+VF = [lambda v: v + 1, lambda v: 2 * v, lambda v: 0]
+GV = [lambda v: [v, v], lambda v: [], lambda v: list(range(v % 3))]
+FRACTIONS = [{0: 1.0, 1: 0.0, 2: 1.0}, {}, {0: 0.0, 1: 0.0, 2: 0.0}, {1: 0.0}, {0: 1.0}]
+KEPT_KEYS = [{0, 2}, set(), set(), set(), {0}]        # Bernoulli; with replacement only tables 1..3 (nothing is drawn)
+
+
+def keyby_code(c):
+    return lambda x: x if sp(x) else pair(KF[c](x), x)
+
+
+def mapvalues_code(c):
+    return lambda pc: pair(unpair(pc)[0], VF[c](unpair(pc)[1])) if ispair(pc) else pc
+
+
+def flatmapvalues_code(c):
+    return lambda pc: [pair(unpair(pc)[0], w) for w in GV[c](unpair(pc)[1])] if ispair(pc) else [pc]
+
+
+def samplebykey_code(c):
+    return lambda pc: (1 if unpair(pc)[0] in KEPT_KEYS[c] else 0) if ispair(pc) else 0
+
+
+NLIB = {KEYBY: len(KF), MAPVALUES: len(VF), FLATMAPVALUES: len(GV), SAMPLEBYKEY: len(FRACTIONS), MAP: len(FN), FILTER: len(PRED), FLATMAP: len(GFN), SAMPLE: len(MFN), EAGER: len(HFN)}
 
 
 class Rec:
@@ -207,6 +259,8 @@ class Rec:
         if hasattr(x, 'pid'):
             self.cur = x.pid
             return x.pid
+        if isinstance(x, tuple) and len(x) == 2:
+            return self.pid(x[1])         # a plain (key, value) pair built by keyBy / mapValues: the value is tagged
         if x is None or x is False:
             return self.cur
         return -1
@@ -286,6 +340,46 @@ def define_stage(R, rdd, s, k, c, flag):
                 setattr(rdd_mod, name, v)
         if getattr(r, 'sampler', w) is not w:
             r.sampler = w
+        return r
+    if k == KEYBY:
+        f = KF[c]
+
+        def w(x):
+            R.rec(s, R.pid(x), x)
+            x.key = f(enc(x))
+            return x.key
+        return rdd.keyBy(w)
+    if k == MAPVALUES:
+        f = VF[c]
+
+        def w(v):
+            pid = R.pid(v)
+            R.rec(s, pid, pair(v.key, enc(v)))
+            out = E(f(enc(v)), pid)
+            out.key = v.key
+            return out
+        return rdd.mapValues(w)
+    if k == FLATMAPVALUES:
+        f = GV[c]
+
+        def w(v):
+            pid = R.pid(v)
+            R.rec(s, pid, pair(v.key, enc(v)))
+            out = []
+            for u in f(enc(v)):
+                o = E(u, pid)
+                o.key = v.key
+                out.append(o)
+            return iter(out) if flag else out
+        return rdd.flatMapValues(w)
+    if k == SAMPLEBYKEY:
+        r = rdd.sampleByKey(bool(flag), dict(FRACTIONS[c]), seed=7)
+        orig = getattr(r, 'sampler', None)
+        if orig is not None:
+            def wr(x, rng=None, numpy_rng=None):
+                R.rec(s, R.pid(x), x)
+                return orig(x, rng, numpy_rng)
+            r.sampler = wr
         return r
     if k == PERSIST:
         return rdd.persist()
@@ -397,6 +491,26 @@ def partitioning(src):
 
 
 def impl(case):
+    if len(case) > 3 and case[3]:
+        # non-default process configuration: DEBUG logging for the 'pysparkling' loggers, records formatted into a buffer
+        lg = logging.getLogger('pysparkling')
+        saved = (lg.level, lg.propagate, logging.root.manager.disable)
+        handler = logging.StreamHandler(io.StringIO())
+        try:
+            logging.disable(logging.NOTSET)
+            lg.setLevel(logging.DEBUG)
+            lg.propagate = False
+            lg.addHandler(handler)
+            return _impl(case[:3])
+        finally:
+            lg.removeHandler(handler)
+            lg.setLevel(saved[0])
+            lg.propagate = saved[1]
+            logging.disable(saved[2])
+    return _impl(case[:3])
+
+
+def _impl(case):
     src, stages, action = case
     parts = partitioning(src)
     R = Rec()
@@ -435,6 +549,14 @@ def plain_stage(k, c, xs):
         return [y for x in xs for y in GFN[c](x)]
     if k == SAMPLE:
         return [x for x in xs for _ in range(MFN[c](x))]
+    if k == KEYBY:
+        return [keyby_code(c)(x) for x in xs]
+    if k == MAPVALUES:
+        return [mapvalues_code(c)(x) for x in xs]
+    if k == FLATMAPVALUES:
+        return [y for x in xs for y in flatmapvalues_code(c)(x)]
+    if k == SAMPLEBYKEY:
+        return [x for x in xs for _ in range(samplebykey_code(c)(x))]
     if k in (PERSIST, CACHE):
         return list(xs)
     if k == EAGER:
@@ -455,7 +577,7 @@ def stage_inputs(parts, stages):
 
 
 def oracle(case, result):
-    src, stages, action = case
+    src, stages, action = case[:3]
     if isinstance(result, Err):
         return None
     ndef, log, res, parts = result
@@ -578,9 +700,10 @@ def nontrivial(case, result):
 
 
 def kind(case):
+    cfg = '+debuglog' if len(case) > 3 and case[3] else ''
     if case[2][0] == A_HISTORY:
-        return f'history{len(case[2][1])}/d{len(case[1])}'
-    return f'{ACTIONS[case[2][0]]}/d{len(case[1])}'
+        return f'history{len(case[2][1])}/d{len(case[1])}{cfg}'
+    return f'{ACTIONS[case[2][0]]}/d{len(case[1])}{cfg}'
 
 
 # ---- generators -------------------------------------------------------------------------------------------
@@ -682,6 +805,8 @@ def single_actions(rng, src, stages, every_reducer=False):
         # an untagged None / False could not be attributed there; everywhere else in a partition it can
         ops = range(len(OP)) if every_reducer else [rng.randrange(len(OP))]
         singles.extend((A_REDUCE, o, 0, 0) for o in ops)
+    if any(ispair(x) for x in outs):
+        singles = [a for a in singles if a[0] != A_SAVE]      # lines of pairs are not read back
     if special <= {NONE, STR, TUP}:
         singles.append((A_COUNTBYVALUE, 0, 0, 0))       # hashable, and no False that would collide with 0
     if not special:
@@ -814,6 +939,32 @@ def generate(rng, tier):
                 for act in [(A_FIRST, 0, 0, 0), (A_ISEMPTY, 0, 0, 0)] + \
                         [(A_TAKE, n, 0, 0) for n in range(0, min(out_len(src, pipe), 3) + 2)]:
                     cases.append((src, pipe, act))
+    # pair datasets: keyBy / map-to-pairs, mapValues, flatMapValues and per-key sampling (the real per-key samplers, also
+    # with fractions that miss some keys) defined DOWNSTREAM of stages carrying user functions
+    pairs = []
+    to_pairs = [[(KEYBY, c, 0)] for c in range(len(KF))] + [[(MAP, 11, 0)]]
+    on_pairs = [[], [(MAPVALUES, 0, 0)], [(MAPVALUES, 2, 0)], [(FLATMAPVALUES, 0, 0)], [(FLATMAPVALUES, 2, 1)],
+                [(FLATMAPVALUES, 1, 0)], [(MAPVALUES, 1, 0), (FLATMAPVALUES, 0, 0)], [(FILTER, 2, 1)], [(CACHE, 0, 0)]]
+    samplers = [[]] + [[(SAMPLEBYKEY, c, 0)] for c in range(len(FRACTIONS))] + [[(SAMPLEBYKEY, c, 1)] for c in (1, 2, 3)]
+    for src in [(0, [3, 0, 4, 2, 7], 2), (0, [1, 2, 3, 4, 5, 6], 3), (0, [5], 0), (1, [[], [2, 9], [4]], 0)]:
+        for up in ([], [(MAP, 0, 0)], [(FILTER, 1, 0), (MAP, 1, 0)]):
+            for tp in to_pairs:
+                for op in on_pairs:
+                    for sm in samplers:
+                        for down in ([], [(MAPVALUES, 0, 0)]):
+                            if not sm and down:
+                                continue
+                            pipe = list(up) + tp + op + sm + down
+                            if out_len(src, pipe) > 40:
+                                continue
+                            for act in single_actions(rng, src, pipe) + [(A_TAKE, 2, 0, 0), (A_FIRST, 0, 0, 0), (A_ISEMPTY, 0, 0, 0)]:
+                                pairs.append((src, pipe, act))
+    if quick:
+        keep = [c for c in pairs if c[2][0] == A_COLLECT and c[0][2] == 2 and len(c[1]) == 3 and c[1][-1][0] == SAMPLEBYKEY]
+        pairs = keep + rng.sample(pairs, 600)
+    else:
+        pairs = rng.sample(pairs, 12000)
+    cases.extend(pairs)
     # histories: several actions on ONE dataset object (uncached lineages)
     n_hist = 300 if quick else 6000
     while n_hist > 0:
@@ -860,7 +1011,8 @@ def generate(rng, tier):
     for _ in range(25 if quick else 300):
         src = rand_src(rng, 6)
         st = fix_stages(src, [rand_stage(rng) for _ in range(rng.randint(0, 3))])
-        cases.append((src, st, (A_SAVE, 0, 0, 0)))
+        if not any(ispair(x) for x in out_values(src, st)):
+            cases.append((src, st, (A_SAVE, 0, 0, 0)))
     # random deeper pipelines, irregular partitionings, all take(n)
     budget = 1300 if quick else 36000
     while budget > 0:
@@ -872,6 +1024,16 @@ def generate(rng, tier):
         for act in acts:
             cases.append((src, st, act))
         budget -= len(acts)
+    # non-default process configuration: a slice of everything above (every action kind) with DEBUG logging enabled
+    # for the 'pysparkling' loggers; logging must not change what is evaluated, so the model is the same
+    by_kind = {}
+    for c in cases:
+        by_kind.setdefault(c[2][0], []).append(c)
+    per = 60 if quick else 900
+    for a in sorted(by_kind):
+        pool = by_kind[a]
+        for c in rng.sample(pool, min(per, len(pool))):
+            cases.append(tuple(c[:3]) + (1,))
     return cases
 
 
@@ -891,14 +1053,41 @@ def load_corpus():
 
 
 def _norm(c):
-    src, stages, action = c
+    src, stages, action = c[:3]
     action = tuple(action)
     if action[0] == A_HISTORY:
         action = (A_HISTORY, [tuple(a) for a in action[1]], 0, 0)
-    return (tuple(src), [tuple(s) for s in stages], action)
+    return (tuple(src), [tuple(s) for s in stages], action) + tuple(c[3:])
+
+
+def well_typed(src, stages):
+    """keyBy reads ints, the pair stages read (key, value) pairs (anything else would make a user function raise, and a
+    raising task is retried -- that is C04's subject, not a call-count violation)"""
+    try:
+        inputs = stage_inputs(src_parts(src), stages)
+    except Exception:  # pylint: disable=broad-except
+        return False
+    for s, (k, _c, _f) in enumerate(stages, 1):
+        vals = [x for xs in inputs[s] for x in xs]
+        if k == KEYBY and any(sp(x) for x in vals):
+            return False
+        if k in PAIR_STAGES and not all(ispair(x) for x in vals):
+            return False
+    return True
 
 
 def shrink_candidates(case):
+    for cand in _shrink_candidates(case):
+        if well_typed(cand[0], cand[1]):
+            yield cand
+
+
+def _shrink_candidates(case):
+    if len(case) > 3:
+        yield case[:3]
+        for cand in _shrink_candidates(case[:3]):
+            yield cand + tuple(case[3:])
+        return
     src, stages, action = case
     for i in range(len(stages)):
         yield (src, stages[:i] + stages[i + 1:], action)
@@ -922,3 +1111,134 @@ def shrink_candidates(case):
         for i in range(len(acts)):
             if len(acts) > 1:
                 yield (src, stages, (A_HISTORY, acts[:i] + acts[i + 1:], 0, 0))
+
+
+# ---- sweep of the public transformation API: "defining invokes nothing" ---------------------------------------------
+# Every transformation below is defined DOWNSTREAM of counted user functions (map(f) and, for pair operations,
+# keyBy(g)) and, where it takes a function, with a counted function of its own.  JUDGED (the property's clause:
+# element-wise transformations, sampling, persistence): no call while defining, and count() afterwards calls f and g
+# exactly once per element.  OBSERVED only (shuffles and multi-dataset operations; several are eager by design in this
+# implementation -- on the clean tree ALL of them run jobs while being defined, e.g. randomSplit, zip, cartesian, union,
+# coalesce, repartition, sortBy, groupByKey): recorded in the evidence, never judged.
+def _sweep_table():
+    ident = lambda x: x                                          # noqa: E731
+    T = [
+        # name, judged, needs pairs, builder(rdd, other, h) -- h is a counted function of the transformation itself
+        ('map', True, False, lambda r, o, h: r.map(h)),
+        ('flatMap', True, False, lambda r, o, h: r.flatMap(lambda x: [h(x)])),
+        ('filter', True, False, lambda r, o, h: r.filter(lambda x: h(x) is not None)),
+        ('keyBy', True, False, lambda r, o, h: r.keyBy(h)),
+        ('mapPartitions', True, False, lambda r, o, h: r.mapPartitions(lambda it: (h(x) for x in it))),
+        ('mapPartitionsWithIndex', True, False, lambda r, o, h: r.mapPartitionsWithIndex(lambda i, it: (h(x) for x in it))),
+        ('glom', True, False, lambda r, o, h: r.glom()),
+        ('sample(False,0.5)', True, False, lambda r, o, h: r.sample(False, 0.5, seed=3)),
+        ('sample(True,1.5)', True, False, lambda r, o, h: r.sample(True, 1.5, seed=3)),
+        ('sample(False,0.0)', True, False, lambda r, o, h: r.sample(False, 0.0, seed=3)),
+        ('sample(False,1.0)', True, False, lambda r, o, h: r.sample(False, 1.0)),
+        ('persist', True, False, lambda r, o, h: r.persist()),
+        ('cache', True, False, lambda r, o, h: r.cache()),
+        ('zipWithUniqueId', True, False, lambda r, o, h: r.zipWithUniqueId()),
+        ('mapValues', True, True, lambda r, o, h: r.mapValues(h)),
+        ('flatMapValues', True, True, lambda r, o, h: r.flatMapValues(lambda v: [h(v)])),
+        ('keys', True, True, lambda r, o, h: r.keys()),
+        ('values', True, True, lambda r, o, h: r.values()),
+        ('sampleByKey(False,all keys)', True, True, lambda r, o, h: r.sampleByKey(False, {0: 0.5, 1: 0.5}, seed=3)),
+        ('sampleByKey(False,missing key)', True, True, lambda r, o, h: r.sampleByKey(False, {0: 0.5}, seed=3)),
+        ('sampleByKey(True,missing key)', True, True, lambda r, o, h: r.sampleByKey(True, {1: 2.0}, seed=3)),
+        ('sampleByKey(False,{})', True, True, lambda r, o, h: r.sampleByKey(False, {})),
+        # observed only
+        ('randomSplit', False, False, lambda r, o, h: r.randomSplit([0.5, 0.5], seed=3)[0]),
+        ('zip', False, False, lambda r, o, h: r.zip(r)),
+        ('zipWithIndex', False, False, lambda r, o, h: r.zipWithIndex()),
+        ('cartesian', False, False, lambda r, o, h: r.cartesian(o)),
+        ('union', False, False, lambda r, o, h: r.union(o)),
+        ('coalesce', False, False, lambda r, o, h: r.coalesce(1)),
+        ('repartition', False, False, lambda r, o, h: r.repartition(3)),
+        ('distinct', False, False, lambda r, o, h: r.distinct()),
+        ('sortBy', False, False, lambda r, o, h: r.sortBy(h)),
+        ('groupBy', False, False, lambda r, o, h: r.groupBy(h)),
+        ('intersection', False, False, lambda r, o, h: r.intersection(o)),
+        ('subtract', False, False, lambda r, o, h: r.subtract(o)),
+        ('groupByKey', False, True, lambda r, o, h: r.groupByKey()),
+        ('reduceByKey', False, True, lambda r, o, h: r.reduceByKey(lambda a, b: a)),
+        ('sortByKey', False, True, lambda r, o, h: r.sortByKey()),
+        ('partitionBy', False, True, lambda r, o, h: r.partitionBy(2)),
+        ('join', False, True, lambda r, o, h: r.join(r)),
+    ]
+    del ident
+    return T
+
+
+SWEEP_OBSERVED = {}
+
+
+def extra_checks(rng, tier, workdir):   # pylint: disable=unused-argument
+    SWEEP_OBSERVED.clear()
+    for xs, n in (([3, 1, 4, 1, 5], 2), ([2, 7, 2], 3), ([6], None)):
+        for debug in (0, 1):
+            for name, judged, pairs, make in _sweep_table():
+                calls = {'f': 0, 'g': 0, 'h': 0, 'o': 0}
+
+                def counted(tag, fn, calls=calls):
+                    def w(x):
+                        calls[tag] += 1
+                        return fn(x)
+                    return w
+                ctx = pysparkling.Context()
+                r = ctx.parallelize(list(xs), n).map(counted('f', lambda x: x + 1))
+                o = ctx.parallelize([1, 2], 2).map(counted('o', lambda x: x))
+                if pairs:
+                    r = r.keyBy(counted('g', lambda x: x % 2))
+                what = (f'parallelize({xs}, {n}).map(f)' + ('.keyBy(g)' if pairs else '') + f'.{name}'
+                        + (' with DEBUG logging' if debug else ''))
+                err = None
+                try:
+                    at_def, after = _sweep_one(make, r, o, counted('h', lambda x: x), calls, debug)
+                except Exception as e:  # pylint: disable=broad-except
+                    err = type(e).__name__
+                    at_def, after = dict(calls), dict(calls)
+                if not judged:
+                    key = name
+                    SWEEP_OBSERVED.setdefault(key, set()).add(
+                        ('calls at definition' if any(at_def.values()) else 'silent definition') if err is None else f'raises {err}')
+                    continue
+                if err is not None:
+                    yield (f'define:{name}:raises', what, err, None)
+                    continue
+                if any(at_def.values()):
+                    yield (f'define:{name}:user-function-called', what,
+                           f'user functions were called while the transformation was being defined: {at_def}', None)
+                    continue
+                want = {'f': len(xs), 'g': len(xs) if pairs else 0}
+                got = {k: after[k] for k in want}
+                if got != want:
+                    yield (f'count:after-{name}:not-exactly-once', what + '.count()',
+                           f'calls of the upstream functions {got}, elements {want}', None)
+
+
+def _sweep_one(make, r, o, h, calls, debug):
+    lg = logging.getLogger('pysparkling')
+    saved = (lg.level, lg.propagate, logging.root.manager.disable)
+    handler = logging.StreamHandler(io.StringIO())
+    try:
+        if debug:
+            logging.disable(logging.NOTSET)
+            lg.setLevel(logging.DEBUG)
+            lg.propagate = False
+            lg.addHandler(handler)
+        t = make(r, o, h)
+        at_def = dict(calls)
+        t.count()
+        return at_def, dict(calls)
+    finally:
+        if debug:
+            lg.removeHandler(handler)
+            lg.setLevel(saved[0])
+            lg.propagate = saved[1]
+            logging.disable(saved[2])
+
+
+def extra_evidence():
+    return {'transformation_api_sweep': {
+        'judged_define_silent_and_exactly_once': [t[0] for t in _sweep_table() if t[1]],
+        'observed_only': {k: sorted(v) for k, v in sorted(SWEEP_OBSERVED.items())}}}
